@@ -19,6 +19,9 @@ def Prio.le : Prio → Prio → Bool
   | .posInf, _ => false
   | _, .negInf => false
 
+/-- strict order derived from `le` (floats: `a < b`; the harness never pushes NaN) -/
+def Prio.lt (a b : Prio) : Bool := !(Prio.le b a)
+
 abbrev Queue := List (Nat × Prio)
 
 def empty (q : Queue) : Bool := q.isEmpty
